@@ -647,6 +647,24 @@ def _datom(a, var, R):
         if d.is_zero():
             return None
         return -(d * R.trig('sin', args[0]))
+    if kind == 'pow' and len(args) == 2:
+        base, ex = args
+        if not diff(ex, var, R).is_zero():
+            raise NormError('derivative of a power with variable exponent')
+        d = diff(base, var, R)
+        if d.is_zero():
+            return None
+        return d * _rat(ex) * _rat(R.func('pow', [_rat(base), _rat(ex) - 1]))
+    fd = getattr(R, 'fderiv', {}).get(kind)
+    if fd is not None:
+        pos, dname = fd
+        d = diff(args[pos], var, R)
+        for i, x in enumerate(args):
+            if i != pos and isinstance(x, (Poly, Rat)) and not diff(x, var, R).is_zero():
+                raise NormError('derivative of %s through a parameter' % kind)
+        if d.is_zero():
+            return None
+        return d * _rat(R.func(dname, [_rat(x) for x in args], real=R.real.get(a, True)))
     if kind == 'log' and len(args) == 1:
         d = diff(args[0], var, R)
         if d.is_zero():
